@@ -284,6 +284,10 @@ def run_case(case, rec):
             observations=jnp.asarray(wv) if case["wvec"] else w), **kw)
         batch = jinns.data.PDENonStatioBatch(times_x_inside_batch=jnp.asarray(rng.uniform(0, 1, (B, 1 + d))),
                                              times_x_border_batch=None)
+    if nobs == 1 and case["seed"] % 3 == 1:
+        # a hand-built observation batch of a scalar quantity: values given as a (B,) vector instead of (B, 1)
+        ob = dict(ob, val=ob["val"][:, 0])
+        rec.count("obs_values_of_shape_(B,)")
     batch = jinns.data.append_obs_batch(batch, ob)
     pb = None
     if case["pbatch"]:
@@ -304,7 +308,7 @@ def run_case(case, rec):
         if case["observed"]:
             rec.count("obs_with_observed_params")
         return
-    bi, bv = np.asarray(ob["pinn_in"]), np.asarray(ob["val"])
+    bi, bv = np.asarray(ob["pinn_in"]), np.asarray(ob["val"]).reshape(B, -1)
     rows = []
     for i in range(B):
         eq = dict(eq0)
